@@ -134,6 +134,12 @@ func (cs *c15Case) produce(withMeta bool) (outBytes []byte, outErr error, panick
 				if outErr == nil {
 					outErr = m.AddFrame(muxBits, &mux.FrameOptions{Duration: 50})
 				}
+			} else if cs.Kind == "mux-anim-1001" {
+				// more chunks than any table bounded at 1000 entries holds: EXIF and XMP are
+				// written after all the frames
+				for i := 0; i < 1001 && outErr == nil; i++ {
+					outErr = m.AddFrame(muxBits, &mux.FrameOptions{Duration: 10 + i%3})
+				}
 			} else {
 				outErr = m.AddFrame(muxBits, nil)
 			}
@@ -327,12 +333,12 @@ var _ image.Image
 
 func init() {
 	registerCases[c15Case]("C15", "exploration",
-		"full product of blob alphabet {absent, nil, empty, 1, 2, 3 bytes, chunk-look-alike, 4095, 4096, 65537 bytes} for each of ICC, EXIF, XMP x 15 output kinds (mux.Muxer with a pre-encoded still of odd and of even length and with two frames, all blobs and the bitstream being adjacent sub-slices of one caller-owned buffer that must come back untouched; lossy, lossless, lossy+alpha, lossless+alpha, both again with Exact on a picture with colour under transparent pixels, 1-frame and 2-frame AnimEncoder, lossy with a TargetSize and with a TargetPSNR search, Method 6 Quality 100 in both codecs); blobs read back byte-exact via riffwalk, mux.GetChunk and animation.DecodeBytes; flags = chunk presence; bitstream/ALPH payloads and decoded pixels identical to the no-metadata output",
+		"full product of blob alphabet {absent, nil, empty, 1, 2, 3 bytes, chunk-look-alike, 4095, 4096, 65537 bytes} for each of ICC, EXIF, XMP x 16 output kinds (a 1001-frame muxer animation among them; mux.Muxer with a pre-encoded still of odd and of even length and with two frames, all blobs and the bitstream being adjacent sub-slices of one caller-owned buffer that must come back untouched; lossy, lossless, lossy+alpha, lossless+alpha, both again with Exact on a picture with colour under transparent pixels, 1-frame and 2-frame AnimEncoder, lossy with a TargetSize and with a TargetPSNR search, Method 6 Quality 100 in both codecs); blobs read back byte-exact via riffwalk, mux.GetChunk and animation.DecodeBytes; flags = chunk presence; bitstream/ALPH payloads and decoded pixels identical to the no-metadata output",
 		[]string{"worker count pinned to 1, pools never reuse"},
 		nil,
 		func(e *fw.Env) func(c *choice.Ctx) caseI {
 			kinds := []string{"lossy", "lossless", "lossy-alpha", "lossless-alpha", "lossy-alpha-exact", "lossless-alpha-exact", "anim1", "anim2",
-				"lossy-targetsize", "lossy-targetpsnr", "lossless-m6", "lossy-m6", "mux-still-odd", "mux-still-even", "mux-anim"}
+				"lossy-targetsize", "lossy-targetpsnr", "lossless-m6", "lossy-m6", "mux-still-odd", "mux-still-even", "mux-anim", "mux-anim-1001"}
 			names := c15BlobNames
 			if e.Quick() {
 				names = []string{"absent", "nil", "empty", "b1", "b2", "chunklike", "b4095"}
